@@ -24,6 +24,10 @@ type Node struct {
 	Target string
 	// spacing of a binary + / - : 0 "a - b", 1 "a -b", 2 "a-b"
 	Sp int
+	// BareAsg (on an assignment node): printed without parentheses although it is the LAST
+	// operand of a tighter operator (`1 + $x >>= 2`, `$t ? 1 : $x = 2`, `!$p = true`): the
+	// left side of an assignment must be a variable, so there is exactly one way to read it
+	BareAsg bool
 	// prefix operator printed bare as right operand of ** although the table ranks it lower
 	// (syntactically unambiguous: `2 ** -$a`)
 	BareRhs bool
@@ -196,14 +200,16 @@ func (p *printer) leafText(n *Node) string {
 }
 
 // expr prints the node without surrounding parentheses.
-func (p *printer) expr(n *Node) string {
+// expr prints n; tail says that nothing follows n's text before the enclosing delimiter
+// (`;`, `,`, `)`, `]`, `:`), which is what makes an unparenthesised assignment unambiguous.
+func (p *printer) expr(n *Node, tail bool) string {
 	if n.Op == nil {
 		return p.leafText(n)
 	}
 	switch n.Op.Kind {
 	case KBin:
-		l := p.child(n, 0)
-		r := p.child(n, 1)
+		l := p.child(n, 0, tail)
+		r := p.child(n, 1, tail)
 		sym := n.Op.Sym
 		if (n.Op.Name == "add" || n.Op.Name == "sub") && n.Sp > 0 {
 			sep := ""
@@ -217,20 +223,20 @@ func (p *printer) expr(n *Node) string {
 		}
 		return l + " " + sym + " " + r
 	case KPre:
-		o := p.child(n, 0)
+		o := p.child(n, 0, tail)
 		if n.Op.Sym == "-" && (o[0] == '-' || n.NegDet) {
 			return "- " + o
 		}
 		return n.Op.Sym + o
 	case KTern:
-		return p.child(n, 0) + " ? " + p.child(n, 1) + " : " + p.child(n, 2)
+		return p.child(n, 0, tail) + " ? " + p.child(n, 1, tail) + " : " + p.child(n, 2, tail)
 	case KAsg:
-		return "$" + n.Target + " " + n.Op.Sym + " " + p.child(n, 0)
+		return "$" + n.Target + " " + n.Op.Sym + " " + p.child(n, 0, tail)
 	}
 	panic("kind")
 }
 
-func (p *printer) child(parent *Node, pos int) string {
+func (p *printer) child(parent *Node, pos int, parentTail bool) string {
 	k := parent.Kids[pos]
 	if k.Op == nil {
 		s := p.leafText(k)
@@ -248,42 +254,52 @@ func (p *printer) child(parent *Node, pos int) string {
 		}
 		return s
 	}
-	s := p.expr(k)
+	// would the kid, printed without parentheses, run up to the enclosing delimiter?
+	openTail := (pos == len(parent.Kids)-1 && parentTail) || (parent.Op.Kind == KTern && pos == 1)
 	paren, _ := needParens(parent.Op, pos, k.Op)
 	if paren && parent.BareRhs && parent.Op.Name == "pow" && pos == 1 && k.Op.Kind == KPre {
 		paren = false
 	}
+	if paren && openTail && k.Op.Kind == KAsg && k.BareAsg {
+		paren = false
+	}
+	wrap := ""
 	switch p.mode {
 	case Full:
-		return "(" + s + ")"
+		wrap = "("
 	case Extra:
 		if !paren {
 			switch p.rng.Intn(4) {
 			case 0:
-				return "(" + s + ")"
+				wrap = "("
 			case 1:
-				return "((" + s + "))"
+				wrap = "(("
 			}
-			p.bare++
-			return s
+		} else if p.rng.Intn(4) == 0 {
+			wrap = "(("
+		} else {
+			wrap = "("
 		}
-		if p.rng.Intn(4) == 0 {
-			return "((" + s + "))"
+	default:
+		if paren {
+			wrap = "("
 		}
-		return "(" + s + ")"
 	}
-	if paren {
-		return "(" + s + ")"
+	switch wrap {
+	case "(":
+		return "(" + p.expr(k, true) + ")"
+	case "((":
+		return "((" + p.expr(k, true) + "))"
 	}
 	p.bare++
-	return s
+	return p.expr(k, openTail)
 }
 
 // render prints the whole tree in the given mode; bare is the number of operator→operator
 // edges left without parentheses (only meaningful for Min).
 func render(n *Node, mode Mode, rng *rand.Rand) (text string, bare int) {
 	p := &printer{mode: mode, rng: rng, noParenLitUnderNeg: quar.parenLitNeg}
-	s := p.expr(n)
+	s := p.expr(n, true)
 	if mode == Full && n.Op != nil {
 		s = "(" + s + ")"
 	}
